@@ -62,7 +62,13 @@ def AuthRef.scheme : AuthRef → String
   | .bearer s => s | .headerKey s _ => s | .queryKey s _ => s
 
 inductive Seg where
-  | const (s : String)
+  | const (s : List Char)
+  | var (name : String) (t : PType)
+deriving Repr, Inhabited
+
+/-- one segment of a path template: a literal directory or a `{name}` of a declared type -/
+inductive TSeg where
+  | lit (d : List Char)
   | var (name : String) (t : PType)
 deriving Repr, Inhabited
 
@@ -120,17 +126,24 @@ def authRefs (reduced : List (String × SchemeKind)) : List AuthRef :=
     | .apiKeyHeader h => some (AuthRef.headerKey n h) | .apiKeyQuery q => some (AuthRef.queryKey n q) | _ => none)
   (jwt.take 1) ++ keysH
 
-/-- `NewOperation` PathBuilder + `NewHandler` PathParsers -/
-def pathProgOf (raw : String) (params : List Param) : List Seg :=
+/-- `NewOperation` PathBuilder + `NewHandler` PathParsers: literal directories accumulate into
+    one constant prefix; a variable flushes the pending constant (with its trailing slash) and
+    adds an extractor; what is pending at the end becomes a last constant -/
+def progOf : List TSeg → List Char → List Seg
+  | [], pend => if pend.isEmpty then [] else [Seg.const pend]
+  | .lit d :: ts, pend => progOf ts (pend ++ '/' :: d)
+  | .var n t :: ts, pend => Seg.const (pend ++ ['/']) :: Seg.var n t :: progOf ts []
+
+def tsegsOf (raw : String) (params : List Param) : List TSeg :=
   let dirs := match (raw.splitOn "/") with | _ :: ds => ds | [] => []
-  let step (acc : List Seg × String) (d : String) : List Seg × String :=
+  dirs.map (fun d =>
     if d.startsWith "{" && d.endsWith "}" then
       let name := ((d.drop 1).dropEnd 1).toString
       let t := ((params.find? (fun p => p.loc == "path" && p.name == name)).map (·.type)).getD (.other "undeclared")
-      (acc.1 ++ [Seg.const (acc.2 ++ "/"), Seg.var name t], "")
-    else (acc.1, acc.2 ++ "/" ++ d)
-  let (segs, rest) := dirs.foldl step ([], "")
-  if rest != "" then segs ++ [Seg.const rest] else segs
+      TSeg.var name t
+    else TSeg.lit d.toList)
+
+def pathProgOf (raw : String) (params : List Param) : List Seg := progOf (tsegsOf raw params) []
 
 def appendIfAbsent (xs : List String) (x : String) : List String := if xs.contains x then xs else xs ++ [x]
 
@@ -317,15 +330,15 @@ def PErr.render : PErr → String
   | .param loc name kind => s!"err({loc},{toHex name},{kind})"
 
 /-- run the alternating constant / variable program over the rest of the path -/
-def runProg (leaf : LeafTable) : List Seg → String → List (String × String) → Except PErr (List (String × String))
+def runProg (leaf : LeafTable) : List Seg → List Char → List (String × String) → Except PErr (List (String × String))
   | [], _, acc => .ok acc
   | Seg.const c :: rest, p, acc =>
-    if p.startsWith c then runProg leaf rest (p.drop c.length).toString acc else .error .wrongPath
+    if c.isPrefixOf p then runProg leaf rest (p.drop c.length) acc else .error .wrongPath
   | Seg.var name t :: rest, p, acc =>
-    let v := String.ofList (p.toList.takeWhile (· != '/'))
-    let p' := String.ofList (p.toList.dropWhile (· != '/'))
+    let v := p.takeWhile (· != '/')
+    let p' := p.dropWhile (· != '/')
     if v.isEmpty then .error (.param "path" name "required") else
-    match pvalue leaf t v with
+    match pvalue leaf t (String.ofList v) with
     | none => .error (.param "path" name "lexical")
     | some d => runProg leaf rest p' (acc ++ [(name, d)])
 
@@ -336,7 +349,7 @@ def pathParse (leaf : LeafTable) (base : String) (o : OpM) (path : String) : Exc
          if r.startsWith "/" then pure r else throw PErr.wrongPath
        else throw PErr.wrongPath)
     else pure path
-  let vals ← runProg leaf o.pathProg p []
+  let vals ← runProg leaf o.pathProg p.toList []
   pure (o.pathFields.map (fun f => ((vals.reverse.find? (·.1 == f)).map (·.2)).getD "?"))
 
 /-- the composed `ParseStrings` snippet of one declared query / header parameter on its
